@@ -1,5 +1,5 @@
 import FeatherModel.Lemmas.DescGrammar
-import FeatherModel.Lemmas.RemapperB
+import FeatherModel.Lemmas.RemapperC
 
 /-!
 # C06 — remappers answer names and descriptors consistently with the mappings
@@ -10,14 +10,21 @@ Property theorems only. Models: `Model/Remapper.lean` (A/B remapper of `quill/sr
 Reading guide
 * descriptors: `mapDesc_grammar` (shape preserved, exactly the class names rewritten, for every field / method / return
   descriptor of the grammar and any renaming), `mapDesc_tokens`/`mapDesc_accepts`/`mapDesc_rejects` (the same on raw
-  strings, and the exact set of rejected strings);
-* classes: `mapClass_spec`, `mapClassAny_array`, `remapperB_class`;
+  strings, and the exact set of rejected strings), `mapDesc_rejects_automaton` (the decidable form the oracle evaluates);
+* classes: `mapClass_spec` (counterpart of the last row naming the class in both namespaces, else unchanged),
+  `mapClass_unmapped`, `mapClass_mapped`, `mapClassAny_array`, `remapperB_class`;
 * members: `declares_spec` (what a class table contains), `member_resolution` (+ `fuel_independent`, `acyclic_fuel`):
-  first declaration in pre-order over the owner and the super types of the provider, through *mapped* classes only —
-  `member_resolution_unmapped_witness` shows that an unmapped class hides the declarations of its super types;
-* fallbacks: `fallback_spec`, `mref_array`;
-* round trips X→Y→X: `roundtrip_class`, `roundtrip_desc`, `roundtrip_member` under the decidable hypothesis `injOn`
-  ("the name is the only source of its image"), with `_witness`es where it fails.
+  first declaration in pre-order over the owner and the super types of the provider in declaration order, through
+  classes *that have a mapping* only. The property text asks for the nearest declaring super type along the provider's
+  graph: `member_resolution_nearest_partial` proves that on the domain `allMapped` (every class of the provider's
+  pre-order from the owner has a mapping), `member_resolution_unmapped_witness` shows that outside it a class without a
+  mapping hides the declarations of its super types. `member_resolution_own` (shadowing), `member_resolution_nowhere`;
+* fallbacks: `fallback_spec`, `fallback_grammar`, `mref_array`, `ref_obj`;
+* round trips X→Y→X: `roundtrip_class`, `roundtrip_desc`, `roundtrip_member` (+ `_query`) under the decidable hypothesis
+  `injOn pairs img c` ("every row whose target is the image of `c` has source `c`": for a mapped name that it is the only
+  source of its image, for an unmapped name that it is not a target), with `_witness`es outside it.
+  `roundtrip_desc` additionally needs the images to be usable inside `L…;` (`validName`: non-empty, no `;`), which every
+  checked `ObjClassName` satisfies; `roundtrip_desc_witness` is an unchecked name with a `;`.
 -/
 
 namespace Thm.C06
@@ -61,6 +68,15 @@ theorem mapDesc_rejects (f : JStr → JStr) (s : JStr) :
 /-- rejection does not depend on the mappings -/
 theorem mapDesc_rejects_indep (f g : JStr → JStr) (s : JStr) : (mapDesc f s).isNone = (mapDesc g s).isNone :=
   mapDesc_isNone_indep f g s
+
+/-- decidable form: `map_desc` fails exactly on the strings outside the regular language
+`( non-L | L non-; non-;* ; )*` (automaton `MapDesc.accepts`, evaluated by the oracle `oracle-desc-rejects`) -/
+theorem mapDesc_rejects_automaton (f : JStr → JStr) (s : JStr) : mapDesc f s = none ↔ accepts s = false := by
+  rw [← mapDesc_isSome_accepts f s]
+  cases mapDesc f s <;> simp
+
+example : accepts (jstr "([[LL;IL$;)[La/b;") = true ∧ accepts (jstr "(L;)V") = false ∧ accepts (jstr "[La") = false := by
+  decide
 
 /-- a descriptor of the grammar is never rejected -/
 theorem mapDesc_grammar_total (f : JStr → JStr) (d : Desc) (h : d.WF) : mapDesc f (print d) ≠ none := by
@@ -118,7 +134,8 @@ theorem remapperB_class {m : Mappings} {src dst : Nat} {r : BTable} (h : remappe
 theorem mapClassAny_array (t : ATable) (e : FieldTy) (h : e.WF) :
     mapClassAny t (printField (.arr e)) = some (printField (.arr (e.map (mapClass t)))) := by
   have := mapDesc_grammar (mapClass t) (.field (.arr e)) h
-  simpa [mapClassAny, mapDescWith, printField, Spec.Desc.LBRACK, Remapper.LBRACK, print, Desc.map] using this
+  simpa [mapClassAny, mapDescWith, printField, Spec.Desc.LBRACK, Remapper.LBRACK, print, Desc.map, FieldTy.map]
+    using this
 
 theorem mapClassAny_obj (t : ATable) (c : JStr) (h : c.head? ≠ some Remapper.LBRACK) :
     mapClassAny t c = some (mapClass t c) := by
@@ -276,25 +293,80 @@ theorem unmapped_owner (sel : BClass → AList MemberKey MemberKey) (r : BTable)
     (f : Nat) (o : JStr) (h : AList.lookup o r = none) : mapMemberFail sel r sup (f + 1) o key = some none := by
   rw [mapMemberFail, h]
 
-/-! ### an unmapped class hides what its super types declare -/
+/-! ### nearest declaring super type (the order of the property text) -/
+
+/-- **Partial.** `dfsAll` is the pre-order of the provider's graph from the owner (the owner, then its super types in
+declaration order, recursively) — the order in which the property text looks for "the nearest declaring super type".
+On the domain `allMapped`: *every class of that pre-order has a mapping* (both names in some row), the answer of
+`map_field_fail` / `map_method_fail` is the first declaration along it. Outside the domain the code stops at the first
+class without a mapping: `member_resolution_unmapped_witness`. -/
+theorem member_resolution_nearest_partial (sel : BClass → AList MemberKey MemberKey) (r : BTable) (sup : Supers)
+    (key : MemberKey) {f f' : Nat} {o : JStr} {order : List JStr}
+    (hd : dfsAll sup f o = some order) (hm : allMapped r order = true) (hle : f ≤ f') :
+    mapMemberFail sel r sup f' o key = some (order.findSome? (declares sel r key)) :=
+  member_resolution sel r sup key (dfs_eq_dfsAll r sup f o order hd hm) hle
+
+/-- the owner declares the member itself: its own answer, whatever the super types say (shadowing) -/
+theorem member_resolution_own (sel : BClass → AList MemberKey MemberKey) (r : BTable) (sup : Supers) (key v : MemberKey)
+    (f : Nat) (o : JStr) (h : declares sel r key o = some v) : mapMemberFail sel r sup (f + 1) o key = some (some v) := by
+  unfold declares at h
+  rw [mapMemberFail]
+  cases hl : AList.lookup o r with
+  | none => rw [hl] at h; simp at h
+  | some cls => rw [hl] at h; simp only at h ⊢; rw [h]
+
+/-- declared nowhere along the search order: no answer (the caller falls back, `fallback_spec`) -/
+theorem member_resolution_nowhere (sel : BClass → AList MemberKey MemberKey) (r : BTable) (sup : Supers) (key : MemberKey)
+    {f f' : Nat} {o : JStr} {order : List JStr} (hd : dfs r sup f o = some order) (hle : f ≤ f')
+    (h : ∀ c ∈ order, declares sel r key c = none) : mapMemberFail sel r sup f' o key = some none := by
+  rw [member_resolution sel r sup key hd hle]
+  congr 1
+  exact List.findSome?_eq_none_iff.mpr h
 
 def fldU : MemberKey × Field :=
   ((jstr "f", jstr "I"), { desc := jstr "I", names := [some (jstr "f"), some (jstr "g")], doc := none })
 
-def clsU : Class := { names := [some (jstr "P"), some (jstr "Q")], doc := none, fields := [fldU], methods := [] }
+def clsU (n t : String) (fields : AList MemberKey Field) : JStr × Class :=
+  (jstr n, { names := [some (jstr n), some (jstr t)], doc := none, fields := fields, methods := [] })
 
-def mU : Mappings := { ns := [jstr "official", jstr "named"], doc := none, classes := [(jstr "P", clsU)] }
+/-- only `P` has a mapping (`P ↦ Q`, declaring `f:I ↦ g`) -/
+def mU : Mappings := { ns := [jstr "official", jstr "named"], doc := none, classes := [clsU "P" "Q" [fldU]] }
 
 /-- `C extends P` -/
 def supU : Supers := [(jstr "C", [jstr "P"])]
 
-/-- `P` declares `f:I ↦ g`, `C` (not in the mappings) extends `P`: the reference `C.f:I` is not renamed, although the
-nearest declaring super type of `C` maps it. The property text asks for the super type's answer here. -/
+/-- `P` declares `f:I ↦ g`, `C` (not in the mappings) extends `P`. The pre-order from `C` is `[C, P]` and its first
+declaration of `f:I` is `g:I`, but `map_field_fail` answers "no mapping" and `map_field` leaves `C.f` unrenamed (while
+`P.f` becomes `g`): a class without a mapping hides what its super types declare. -/
 theorem member_resolution_unmapped_witness :
+    dfsAll supU 5 (jstr "C") = some [jstr "C", jstr "P"] ∧
+    (remapperB mU 0 1).bind (fun r => allMapped r [jstr "C", jstr "P"]) = some false ∧
+    (remapperB mU 0 1).bind (fun r => [jstr "C", jstr "P"].findSome? (declares BClass.fields r (jstr "f", jstr "I"))) =
+      some (jstr "g", jstr "I") ∧
+    (remapperB mU 0 1).bind (fun r => mapMemberFail BClass.fields r supU 5 (jstr "C") (jstr "f", jstr "I")) = some none ∧
     (remapperB mU 0 1).bind (fun r => mapMember BClass.fields r supU 5 (jstr "C") (jstr "f", jstr "I")) =
       some (some (jstr "f", jstr "I")) ∧
     (remapperB mU 0 1).bind (fun r => mapMember BClass.fields r supU 5 (jstr "P") (jstr "f", jstr "I")) =
       some (some (jstr "g", jstr "I")) := by
+  decide
+
+/-- a diamond in which every class has a mapping: `D extends B, C`; `B extends A`; `C extends A`; `A` and `C` declare
+`f:I` (to different names). Pre-order `[D, B, A, C, A]`; the first declaration is `A`'s although `C` is a direct super
+type — depth first, in declaration order. The hypotheses of `member_resolution_nearest_partial` hold. -/
+def mD : Mappings :=
+  { ns := [jstr "official", jstr "named"], doc := none,
+    classes := [clsU "A" "A1" [fldU], clsU "B" "B1" [], clsU "D" "D1" [],
+      clsU "C" "C1" [((jstr "f", jstr "I"), { desc := jstr "I", names := [some (jstr "f"), some (jstr "h")], doc := none })]] }
+
+def supD : Supers := [(jstr "D", [jstr "B", jstr "C"]), (jstr "B", [jstr "A"]), (jstr "C", [jstr "A"])]
+
+example :
+    dfsAll supD (allFuel supD) (jstr "D") = some [jstr "D", jstr "B", jstr "A", jstr "C", jstr "A"] ∧
+    (remapperB mD 0 1).bind (fun r => allMapped r [jstr "D", jstr "B", jstr "A", jstr "C", jstr "A"]) = some true ∧
+    (remapperB mD 0 1).bind (fun r => mapMemberFail BClass.fields r supD (defaultFuel r) (jstr "D") (jstr "f", jstr "I")) =
+      some (some (jstr "g", jstr "I")) ∧
+    (remapperB mD 0 1).bind (fun r => mapMemberFail BClass.fields r supD (defaultFuel r) (jstr "C") (jstr "f", jstr "I")) =
+      some (some (jstr "h", jstr "I")) := by
   decide
 
 /-! ## fallbacks -/
@@ -304,7 +376,7 @@ an error iff the descriptor is rejected -/
 theorem fallback_spec (sel : BClass → AList MemberKey MemberKey) (r : BTable) (sup : Supers) (fuel : Nat)
     (o : JStr) (key : MemberKey) (res : Option MemberKey) (h : mapMemberFail sel r sup fuel o key = some res) :
     mapMember sel r sup fuel o key =
-      some (match res with
+      some (match (generalizing := false) res with
         | some v => some v
         | none => (mapDescWith (classTable r) key.2).map (fun d => (key.1, d))) := by
   unfold mapMember fallback
@@ -350,8 +422,8 @@ that is not a target name) -/
 theorem roundtrip_class (m : Mappings) (x y : Nat) (c : JStr)
     (h : injOn (classPairs m x y) (mapClass (aTable m x y) c) c = true) :
     mapClass (aTable m y x) (mapClass (aTable m x y) c) = c := by
-  simp only [mapClass, mapClassFail, aTable, lookup_tableOf, classPairs_swap m x y] at h ⊢
-  exact roundtrip_core (classPairs m x y) c h
+  simp only [mapClass_eq_getD, mapClassFail, aTable, lookup_tableOf, classPairs_swap m x y] at h ⊢
+  exact roundtrip_getD (classPairs m x y) c h
 
 /-- the same through the B remappers -/
 theorem roundtrip_class_b {m : Mappings} {x y : Nat} {rf rb : BTable}
@@ -382,7 +454,8 @@ theorem roundtrip_class_witness :
 example : injOn (classPairs mW 0 1) (mapClass (aTable mW 0 1) (jstr "S")) (jstr "S") = true := by decide
 
 /-- descriptors: X→Y→X is the identity on every descriptor of the grammar all of whose class names are the only source of
-their image, the images being usable inside `L…;` (non-empty, no `;`) -/
+their image, the images being usable inside `L…;` (non-empty, no `;` — the invariant of a checked `ObjClassName`,
+`duke::tree::names::is_valid_obj_class_name`; the mapping readers construct names checked) -/
 theorem roundtrip_desc (m : Mappings) (x y : Nat) (d : Desc) (hwf : d.WF)
     (hinj : ∀ c ∈ d.names, injOn (classPairs m x y) (mapClass (aTable m x y) c) c = true)
     (hval : ∀ c ∈ d.names, validName (mapClass (aTable m x y) c)) :
@@ -390,7 +463,8 @@ theorem roundtrip_desc (m : Mappings) (x y : Nat) (d : Desc) (hwf : d.WF)
   refine ⟨print (d.map (mapClass (aTable m x y))), mapDesc_grammar _ d hwf, ?_⟩
   unfold mapDescWith
   rw [mapDesc_grammar _ _ (Desc.wf_map _ d hval), Desc.map_map]
-  rw [Desc.map_id_on _ d (fun c hc => roundtrip_class m x y c (hinj c hc))]
+  rw [Desc.map_id_on (mapClass (aTable m y x) ∘ mapClass (aTable m x y)) d
+    (fun c hc => roundtrip_class m x y c (hinj c hc))]
 
 theorem roundtrip_desc_b {m : Mappings} {x y : Nat} {rf rb : BTable}
     (hf : remapperB m x y = some rf) (hb : remapperB m y x = some rb) (d : Desc) (hwf : d.WF)
@@ -519,6 +593,25 @@ theorem roundtrip_member_witness :
       some (jstr "h", jstr "I") ∧
     (remapperB mW 1 0).bind (fun rb => declares BClass.fields rb (jstr "h", jstr "I") (jstr "Z")) =
       some (jstr "g", jstr "I") := by
+  decide
+
+/-! ## the round-trip hypotheses are satisfiable (set `mD`: four classes with distinct targets, `A` and `C` declare `f:I`) -/
+
+/-- `roundtrip_desc`: a method descriptor with an array of a mapped class, an unmapped class and a mapped return type -/
+example :
+    parse? (jstr "([LA;LX;)LB;") =
+      some (.method { params := [.arr (.obj (jstr "A")), .obj (jstr "X")], ret := some (.obj (jstr "B")) }) ∧
+    (∀ c ∈ [jstr "A", jstr "X", jstr "B"],
+      injOn (classPairs mD 0 1) (mapClass (aTable mD 0 1) c) c = true ∧ validName (mapClass (aTable mD 0 1) c)) ∧
+    mapDescWith (aTable mD 0 1) (jstr "([LA;LX;)LB;") = some (jstr "([LA1;LX;)LB1;") ∧
+    mapDescWith (aTable mD 1 0) (jstr "([LA1;LX;)LB1;") = some (jstr "([LA;LX;)LB;") := by
+  decide
+
+/-- `roundtrip_member`: `A.f:I ↦ A1.g:I ↦ A.f:I` -/
+example :
+    injOn (classPairs mD 0 1) (jstr "A1") (jstr "A") = true ∧
+    (remapperB mD 0 1).bind (fun rf => declares BClass.fields rf (jstr "f", jstr "I") (jstr "A")) = some (jstr "g", jstr "I") ∧
+    (remapperB mD 1 0).bind (fun rb => declares BClass.fields rb (jstr "g", jstr "I") (jstr "A1")) = some (jstr "f", jstr "I") := by
   decide
 
 end Thm.C06
